@@ -958,3 +958,166 @@ def _path_model(ctx):
                     sds_module.RESULT_FILE__STDOUT, sds_module.RESULT_FILE__STDERR, sds_module.RESULT_FILE__EXITCODE)
                    == ('act', 'tmp', 'result', 'internal', 'tmp', 'log', 'stdout', 'stderr', 'exit-code'),
                    'enumeration')
+
+
+# ============================================================================ the parts of _do_execute on their own
+
+M.contract(P_ATC + ':ActionToCheckExecutor._store_exit_code',
+           params=dict(self=ATC_EXECUTOR, exitcode=Int), inline=True,
+           requires=lambda self: is_dir(self.tcds.sds.result_dir),
+           ensures={'exit-code file: the decimal exit code, closed, then read-only': lambda self, exitcode, trace:
+           [e[0] for e in trace] == ['open', 'write', 'close', 'chmod']
+           and trace[0][1:3] == (result_file(self, 'exit-code'), 'w')
+           and trace[1][1] is trace[0][3] and trace[1][2] == str(exitcode)
+           and trace[2][1] is trace[0][3] and trace[3] == ('chmod', result_file(self, 'exit-code'), 0o444)},
+           raises_only=())
+
+M.contract(P_ATC + ':ActionToCheckExecutor._register_outcome',
+           params=dict(self=ATC_EXECUTOR, exit_code_or_hard_error=EXIT_CODE_OR_HARD_ERROR), inline=True,
+           requires=lambda self: is_dir(self.tcds.sds.result_dir),
+           old=lambda self: self._atc_outcome,
+           ensures={
+               'outcome registered iff an exit code': lambda self, exit_code_or_hard_error, old:
+               (self._atc_outcome is not None and self._atc_outcome.exit_code == exit_code_or_hard_error.exit_code)
+               if exit_code_or_hard_error.is_exit_code else self._atc_outcome is old,
+               'exit-code file written iff an exit code and not --act': lambda self, exit_code_or_hard_error, trace:
+               opened(trace) == ([(result_file(self, 'exit-code'), 'w')]
+                                 if exit_code_or_hard_error.is_exit_code and self.exe_atc_and_skip_assertions is None
+                                 else []),
+           },
+           raises_only=())
+
+
+def harness_read_only_on_close(path, text, then_raise):
+    """`open_and_make_read_only_on_close__text` (a generator-based context manager): the file is closed however
+    the body ends, and made read-only when the body completes"""
+    from exactly_lib.util.file_utils.misc_utils import open_and_make_read_only_on_close__text
+    try:
+        with open_and_make_read_only_on_close__text(path, 'w') as f:
+            f.write(text)
+            if then_raise:
+                raise KeyError('body fails')
+    except KeyError:
+        return 'raised'
+    return 'completed'
+
+
+M.contract('contracts.C04_sandbox:harness_read_only_on_close',
+           params=dict(path=Custom(lambda interp, name: interp.binop(ast.Div, PATH.make(interp, name + '.dir'),
+                                                                       'f.txt')),
+                       text=Str, then_raise=Bool),
+           setup=lambda interp, args, ghosts: fsmodel.declare_dir(interp, args['path']._parent._s),
+           ensures={'closed however the body ends; read-only when it completes': lambda path, text, result, trace:
+           [e[0] for e in trace] == (['open', 'write', 'close', 'chmod'] if result == 'completed'
+                                     else ['open', 'write', 'close'])
+           and trace[0][1:3] == (str(path), 'w') and trace[1][1:] == (trace[0][3], text)
+           and (result != 'completed' or trace[3] == ('chmod', str(path), 0o444))},
+           raises_only=())
+
+
+# ============================================================================ util/file_utils/dir_file_spaces.py
+# The file space Exactly's own temporary files come from: every path it hands out, and the only directories it
+# creates, are its root (on demand) and entries directly below it.
+
+from exactly_lib.util.file_utils import dir_file_spaces
+from exactly_lib.util.file_utils.dir_file_spaces import DirFileSpaceAsDirCreatedOnDemand, FileNamesConfig
+
+P_DFS = 'exactly_lib.util.file_utils.dir_file_spaces'
+
+
+def _m_next_name(interp, self, args, kwargs):
+    """the name sequences are util.str_.sequences.int_strings(1, 2) (tmp_dir_file_spaces.std_tmp_dir_file_names):
+    decimal numbers padded with zeros.  All that is used of them: a name is not empty, contains no '/' and
+    does not start with '.'
+    (checked for the configured sequences by the obligation `std-file-names`)"""
+    name = Str.make(interp, 'file-name')
+    interp.st.assume(interp.not_(interp.eq(name, '')))
+    interp.st.assume(interp.not_(interp.contains(name, '/')))
+    interp.st.assume(interp.not_(interp.call(interp.getattr(name, 'startswith'), ['.'], {})))
+    return name
+
+
+class NamesI(Interface):
+    methods = {'__next__': Method(model=_m_next_name)}
+
+
+class NamesOfNamesI(Interface):
+    methods = {'__next__': Method(returns=Iface(NamesI))}
+
+
+M.trust('NamesI: the file-name iterators of a FileNamesConfig yield non-empty names without "/" and leading "." -- true of what '
+        'tmp_dir_file_spaces.std_tmp_dir_file_space configures (sequences.int_strings(1, 2)): obligation '
+        '`std-file-names`')
+FILE_NAMES_CONFIG = Inst(FileNamesConfig, _suffix_separator=Const('-'), _root_file_names=Iface(NamesI),
+                         _sub_space_file_names=Iface(NamesOfNamesI))
+
+
+def _mk_dir_file_space(interp, name):
+    x = object.__new__(DirFileSpaceAsDirCreatedOnDemand)
+    x._file_names = FILE_NAMES_CONFIG.make(interp, name + '._file_names')
+    root = PATH.make(interp, name + '.root')
+    x._root_dir_to_create_on_demand = root
+    created = Bool.make(interp, name + '.created')
+    if interp.branch(created):
+        x._existing_root_dir_path = root
+        fsmodel.declare_dir(interp, root._s)
+    else:
+        x._existing_root_dir_path = None
+    return x
+
+
+DIR_FILE_SPACE = Custom(_mk_dir_file_space)
+
+
+def directly_below(p, d):
+    """p is d / NAME for a NAME without '/' """
+    return below(p, d) and str(p.parent) == str(d) and '/' not in p.name
+
+
+def only_root_created(self, trace):
+    """the only thing created is the root directory (and missing ancestors of it), and only if it was not yet"""
+    return all(e == ('mkdir', str(self._root_dir_to_create_on_demand)) for e in events(trace, *FS_EVENTS))
+
+
+M.contract(P_DFS + ':DirFileSpaceAsDirCreatedOnDemand.new_path',
+           params=dict(self=DIR_FILE_SPACE, name_suffix=Opt(Str)), inline=True,
+           ensures={'a path directly below the root of the space': lambda self, result:
+           directly_below(result, self._root_dir_to_create_on_demand),
+                    'only the root is created': lambda self, trace: only_root_created(self, trace),
+                    'the root exists afterwards': lambda self: is_dir(self._root_dir_to_create_on_demand)},
+           raises_only=())
+
+M.contract(P_DFS + ':DirFileSpaceAsDirCreatedOnDemand.new_path_as_existing_dir',
+           params=dict(self=DIR_FILE_SPACE, name_suffix=Opt(Str)), inline=True,
+           ensures={'a new directory directly below the root of the space': lambda self, result, trace:
+           directly_below(result, self._root_dir_to_create_on_demand)
+           and events(trace, *FS_EVENTS)[-1] == ('mkdir', str(result))
+           and only_root_created(self, events(trace, *FS_EVENTS)[:-1])},
+           raises_only=())
+
+M.contract(P_DFS + ':DirFileSpaceAsDirCreatedOnDemand.sub_dir_space',
+           params=dict(self=DIR_FILE_SPACE, name_suffix=Opt(Str)), inline=True,
+           ensures={'a space rooted directly below the root of this space': lambda self, result:
+           type(result) is DirFileSpaceAsDirCreatedOnDemand
+           and directly_below(result._root_dir_to_create_on_demand, self._root_dir_to_create_on_demand)
+           and result._existing_root_dir_path is None,
+                    'only the root is created': lambda self, trace: only_root_created(self, trace)},
+           raises_only=())
+
+
+@M.check('std-file-names')
+def _std_file_names(ctx):
+    """the names std_tmp_dir_file_space configures are what NamesI assumes (first 1200 of each sequence)"""
+    import itertools
+    from exactly_lib.common import tmp_dir_file_spaces
+    space = tmp_dir_file_spaces.std_tmp_dir_file_space(pathlib.Path('/nonexistent/root'))
+    cfg = space._file_names
+    roots = list(itertools.islice(cfg.root_file_names, 1200))
+    subs = list(itertools.islice(next(cfg.sub_space_file_names), 1200))
+    expected = [str(n).zfill(2) for n in range(1, 1201)]
+    ctx.obligation('root file names are str(n).zfill(2), n = 1, 2, ...', roots == expected, 'enumeration')
+    ctx.obligation('sub space file names are str(n).zfill(2), n = 1, 2, ...', subs == expected, 'enumeration')
+    ctx.obligation('the suffix separator is "-"', cfg.suffix_separator == '-', 'enumeration')
+    ctx.obligation('names are not empty, contain no "/" and do not start with "."',
+                   all(n and '/' not in n and not n.startswith('.') for n in roots + subs),
+                   'enumeration')
